@@ -73,6 +73,26 @@ CHECKS = {
         note="Bounded constants (CHUNK=20/32, lengths up to 2-3 chunks); AES-GCM symbolic (chunk verifies iff "
              "original at its index); brotli treated as a block codec with measured compressed sizes; trusted: TLC, "
              "harness projection, hooks."),
+    "C10": dict(
+        technique="TLA+ FileReader model (BlocksToFileReader state machine over an abstract seekable stream, archives from the "
+                  "Writer model) checked by TLC; its complete history graph replayed edge by edge into the real ArchiveReader with hidden-state comparison",
+        text="Because the reader's hidden state (layer stream position, Ready/InFile/Finish, run index) is part of the model "
+             "state, enumerating and replaying every EDGE of the reachable graph - with the projected hidden state compared "
+             "after every step on raw/compress/encrypt/both - covers every history of list/open/read(n)/drop/hash; bytes, "
+             "sizes and hashes are compared with the model's per-file cells.",
+        design_ref="DESIGN.md section 5 C10",
+        note="Archives: seed-chosen interleaved multi-chunk Writer-model behaviours; buffer sizes {0,1,2,3,5,7,>file}; "
+             "scaled constants; a short read of a layer is followed by re-reading the rest of the same buffer."),
+    "C12": dict(
+        technique="TLA+ FileReader model: Linear(sel) operator vs per-file cells (LinearEqualsPerFile, ok only at the marker) "
+                  "checked by TLC; every Linear edge replayed into the real helpers::linear_extract with piecewise-accepting sinks",
+        text="Linear extraction into the empty set, each singleton, first+last and all files is an action of the FileReader "
+             "model enabled in every reachable reader state; each is executed on the real code for 4 stackings with sinks "
+             "accepting 1..7 bytes per write and compared with the per-file contents; a crafted archive without end marker "
+             "must make it fail.",
+        design_ref="DESIGN.md section 5 C12",
+        note="Same archives and constants as C10; truncation-detection clause exercised on an archive without layers "
+             "(byte surgery is not possible under encryption)."),
     "C14": dict(
         technique="Writer-model behaviours with flush() after every call; TLC evaluates FlushedRecoverable (RepairSpec) on the "
                   "repair of the bytes present at the destination when each flush returned",
